@@ -257,7 +257,7 @@ pub fn compose_std_command<S: AsRef<OsStr>, SE: extensions::ShellExtensions>(
 
 pub(crate) async fn on_preexecute(
     cmd: &mut commands::SimpleCommand<'_, impl extensions::ShellExtensions>,
-) -> Result<(), error::Error> {
+) -> Result<Option<ExecutionResult>, error::Error> {
     // Set BASH_COMMAND before invoking the DEBUG trap (and generally before
     // executing commands).
     let full_cmd = cmd.args.iter().map(|arg| arg.to_string()).join(" ");
@@ -271,13 +271,26 @@ pub(crate) async fn on_preexecute(
 
     // Fire the DEBUG trap if one is registered.
     if cmd.shell.traps().handles(traps::TrapSignal::Debug) {
-        let _ = cmd
+        let handler_result = cmd
             .shell
             .invoke_trap_handler(traps::TrapSignal::Debug, &cmd.params)
             .await?;
+
+        // If the handler called `exit`, the shell exits instead of running the command. The
+        // handler has then done its work: it does not fire again for what runs on the way out
+        // (the EXIT trap).
+        if matches!(
+            handler_result.next_control_flow,
+            ExecutionControlFlow::ExitShell
+        ) {
+            cmd.shell
+                .traps_mut()
+                .remove_handlers(traps::TrapSignal::Debug);
+            return Ok(Some(handler_result));
+        }
     }
 
-    Ok(())
+    Ok(None)
 }
 
 /// Represents a simple command to be executed.
@@ -318,6 +331,13 @@ pub struct SimpleCommand<'a, SE: extensions::ShellExtensions> {
 }
 
 impl<'a, SE: extensions::ShellExtensions> SimpleCommand<'a, SE> {
+    /// Gives up on the command without executing it (running its post-execution step).
+    pub(crate) fn discard(mut self) {
+        if let Some(post_execute) = self.post_execute {
+            let _ = post_execute(&mut self.shell);
+        }
+    }
+
     /// Creates a new `SimpleCommand` instance.
     ///
     /// # Arguments
